@@ -56,7 +56,7 @@ def strip_casts(fn, nid):
         n = fn.nodes[nid]
         if n.get('k') in ('wrap', 'icast', 'cast') and 'sub' in n:
             nid = n['sub']
-        elif n.get('k') == 'construct' and n.get('elidable') and len(n.get('args', [])) == 1:
+        elif n.get('k') == 'construct' and (n.get('elidable') or n.get('copymove')) and len(n.get('args', [])) == 1:
             nid = n['args'][0]
         elif n.get('k') == 'call' and n.get('q') in ('std::move', 'std::forward') and n.get('args'):
             nid = n['args'][0]
@@ -142,6 +142,8 @@ def calls_reaching(fb, fn, names):
 
 
 guards = E.guards
+atom_guards = E.atom_guards
+false_edge_of = E.false_edge_of
 
 
 def cond_blocks(fn):
@@ -186,3 +188,129 @@ def compares_with_const(fn, cond, ops, value):
     if n is None or n.get('k') != 'binop' or n.get('op') not in ops:
         return False
     return E.const_of(fn, n['rhs']) == value or E.const_of(fn, n['lhs']) == value
+
+
+# ------------------------------------------------------------------------------------------------ named locals / helpers
+
+def _single_init(fn, d):
+    """init expression id of local d when its declaration is its only definition, else None."""
+    cache = fn.__dict__.setdefault('_c08_single_init', {})
+    if d not in cache:
+        init = None
+        ndef = 0
+        for n in fn.all_nodes():
+            k = n.get('k')
+            if k == 'decl':
+                for v in n['vars']:
+                    if v['d'] == d:
+                        ndef += 1
+                        init = v.get('init') if isinstance(v.get('init'), int) else None
+            elif k == 'assign':
+                c = E.carrier_of(fn, n['lhs'])
+                if c == ('var', d):
+                    ndef += 1
+            elif k == 'unop' and n.get('op') in ('++', '--'):
+                if E.carrier_of(fn, n['sub']) == ('var', d):
+                    ndef += 1
+        cache[d] = init if ndef == 1 else None
+    return cache[d]
+
+
+def resolved(fn, nid, depth=4):
+    """node an expression denotes after stripping casts / std::move and following single-definition locals to their
+    initialiser (`const auto size = c->file_size(); p.set_value(size)` resolves to the file_size() call)."""
+    n = scn(fn, nid)
+    while n is not None and depth > 0 and n.get('k') == 'var' and n.get('vk') == 'local':
+        init = _single_init(fn, n['d'])
+        if init is None:
+            break
+        n = scn(fn, init)
+        depth -= 1
+    return n
+
+
+def subtree_deep(fn, nid, depth=3):
+    """node ids of the expression tree, plus the initialisers of single-definition locals it reads."""
+    out = []
+    seen = set()
+    work = [(nid, depth)]
+    while work:
+        x, d = work.pop()
+        for y in fn.subtree(x):
+            if y in seen:
+                continue
+            seen.add(y)
+            out.append(y)
+            n = fn.nodes[y]
+            if d > 0 and n.get('k') == 'var' and n.get('vk') == 'local':
+                init = _single_init(fn, n['d'])
+                if init is not None:
+                    work.append((init, d - 1))
+    return out
+
+
+def callees_deep(fn, nid):
+    return {fn.nodes[x].get('q') for x in subtree_deep(fn, nid) if fn.nodes[x].get('k') in ('call', 'construct') and 'q' in fn.nodes[x]}
+
+
+def vars_in_deep(fn, nid):
+    return {fn.nodes[x]['d'] for x in subtree_deep(fn, nid) if fn.nodes[x].get('k') == 'var' and fn.nodes[x].get('vk') in ('local', 'param')}
+
+
+def class_of(fb, fn):
+    """class a function body belongs to (for a lambda: the class of the enclosing method)."""
+    hops = 0
+    while fn is not None and fn.is_lambda and hops < 5:
+        fn = fb.by_id.get((fn.unit, fn.outer))
+        hops += 1
+    return fn.cls if fn is not None else None
+
+
+def helper_bodies(fb, fn, n):
+    """bodies of the same-class method called by node n (a helper the code was extracted into), else []."""
+    if n.get('k') != 'call' or 'u' not in n or not n.get('rcls') or n.get('rcls') != class_of(fb, fn):
+        return []
+    return [g for g in fb.by_usr.get(n['u'], [])[:1] if g.has_cfg]
+
+
+def role_ids(fb, fn, nodes, pred, depth=2, edge_ok=None):
+    """ids of `nodes` (of fn) that play a role: pred(fn, node) holds, or the node calls a method of the same class whose
+    body performs the role on every path (code extracted into a helper).  edge_ok(g) may return an edge filter that
+    describes paths excused from performing the role inside helper g."""
+    ids = [n['id'] for n in nodes if pred(fn, n)]
+    if depth > 0:
+        for n in nodes:
+            for g in helper_bodies(fb, fn, n):
+                inner = role_ids(fb, g, list(g.all_nodes()), pred, depth - 1, edge_ok)
+                if inner and must_pass(g, g.entry, inner, edge_ok(g) if edge_ok else None) is None:
+                    ids.append(n['id'])
+    return ids
+
+
+def role_ids_may(fb, fn, nodes, pred, depth=2):
+    """like role_ids, but a helper counts as soon as its body (or its own helpers) contains the role somewhere."""
+    ids = [n['id'] for n in nodes if pred(fn, n)]
+    if depth > 0:
+        for n in nodes:
+            for g in helper_bodies(fb, fn, n):
+                if role_ids_may(fb, g, list(g.all_nodes()), pred, depth - 1):
+                    ids.append(n['id'])
+    return ids
+
+
+def work_functions(fb, fn0, depth=3):
+    """fn0 and the same-class methods it (transitively) calls."""
+    out = [fn0]
+    seen = {fn0.usr}
+    work = [(fn0, 0)]
+    while work:
+        f, d = work.pop()
+        if d >= depth:
+            continue
+        for n in f.all_nodes():
+            for g in helper_bodies(fb, f, n):
+                if g.usr not in seen:
+                    seen.add(g.usr)
+                    out.append(g)
+                    work.append((g, d + 1))
+    return out
